@@ -18,6 +18,7 @@ import (
 	"sync"
 
 	"github.com/attestantio/dirk/services/metrics"
+	"github.com/attestantio/dirk/util/verifhook"
 	"github.com/pkg/errors"
 	"github.com/rs/zerolog"
 	zerologger "github.com/rs/zerolog/log"
@@ -59,6 +60,7 @@ func New(_ context.Context, params ...Parameter) (*Service, error) {
 // It obtains a locker-wide mutex, to ensure that only one goroutine
 // can be locking or unlocking groups of public keys at a time.
 func (s *Service) PreLock() {
+	verifhook.BeforeLock(&s.mapLock, "locker", nil)
 	s.mapLock.Lock()
 }
 
@@ -82,6 +84,7 @@ func (s *Service) Lock(key [48]byte) {
 		}
 		s.newLockMutex.Unlock()
 	}
+	verifhook.BeforeLock(lock, "key", key[:])
 	lock.(*sync.Mutex).Lock()
 }
 
